@@ -748,3 +748,304 @@ class CycleOffset(Kernel):
 
 KERNELS = [CaptureDeltaTs, ApplyDeltaAtomic, CaptureDeltaTss, ApplyDeltaTss, CaptureDeltaTsb, ApplyDeltaTsb, CycleOffset]
 LEMMAS = [TssRoundTrip]
+
+
+# ------------------------------------------------------------------ delta_has_effect_tsd / _tss (what replay may drop)
+#
+# apply_delta skips a recorded delta only when applying it would change nothing: no modified element, no removal of a
+# key the target holds (strict removals always count), and not the empty tick that validates a fresh output.
+
+qr = z3.Int("qr")
+
+
+class EffBundle(Obj):
+    cls = "BundleView(delta)"
+
+    def __init__(self, k):
+        Obj.__init__(self, name="delta_bundle")
+        self.k = k
+
+    def m_size(self, I, a, n):
+        return self.k.n_fields
+
+    def m_at(self, I, a, n):
+        i = z3.simplify(I.ctx.rv(a[0]))
+        return EffField(self.k, i)
+
+
+class EffField(Obj):
+    cls = "ValueView(delta field)"
+
+    def __init__(self, k, idx):
+        Obj.__init__(self, name="delta_field")
+        self.k, self.idx = k, idx
+
+    def _which(self):
+        k = self.k
+        for nm in ("modified", "removed", "removed_strict", "added"):
+            t = k.field_index.get(nm)
+            if t is not None and z3.eq(z3.simplify(self.idx), z3.simplify(t)):
+                return nm
+        raise Gap("delta field index %s is not one of the schema's fields" % self.idx)
+
+    def m_as_map(self, I, a, n):
+        return EffSized(self.k, self._which())
+
+    m_as_indexed_view = m_as_map
+
+
+class EffSized(Obj):
+    cls = "sized view"
+
+    def __init__(self, k, which):
+        Obj.__init__(self, name=which)
+        self.k, self.which = k, which
+
+    def m_size(self, I, a, n):
+        return self.k.sizes[self.which]
+
+    def m_at(self, I, a, n):
+        if self.which != "removed":
+            raise Gap("element access on the %s field" % self.which)
+        i = I.ctx.rv(a[0])
+        I.ctx.oblige("removed-index-in-range", z3.And(i >= 0, i < self.k.sizes["removed"]), kind="bounds")
+        return ElemRef(self.k.removed_key[i])
+
+
+class EffDictOut(Obj):
+    cls = "TSDOutputView"
+
+    def __init__(self, k):
+        Obj.__init__(self, name="dict_out")
+        self.k = k
+
+    def m_contains(self, I, a, n):
+        e = I.ctx.rv(a[0])
+        return self.k.target_has[e.eid]
+
+
+class DeltaHasEffectTsd(DeltaKernel):
+    name = "ts_delta.cpp:delta_has_effect_tsd"
+    fn_name = "delta_has_effect_tsd"
+    filter = "delta_has_effect_tsd"
+    title = "delta_has_effect_tsd: a dictionary delta is dropped only if applying it would change nothing"
+
+    def setup(self, I):
+        ctx = I.ctx
+        self.has_delta = z3.Bool("delta_has_value")
+        self.n_fields = z3.Int("delta_field_count")
+        self.sizes = {nm: z3.Int("n_" + nm) for nm in ("modified", "removed", "removed_strict")}
+        for v in self.sizes.values():
+            ctx.assume(v >= 0)
+        self.removed_key = z3.Array("removed_key", I_, I_)
+        self.target_has = z3.Array("target_has_key", I_, B_)
+        self.out_valid = z3.Bool("target_valid")
+        self.field_index = {}
+        self.authored = z3.Int("tsd_authored_delta_fields")
+        ctx.assume(z3.Or(self.n_fields == self.authored, self.n_fields == self.authored - 1))
+        out = Obj("TSOutputView", "out")
+        out.m_valid = lambda I_2, a, n: self.out_valid
+        out.m_as_dict = lambda I_2, a, n: EffDictOut(self)
+        delta = Obj("ValueView", "delta")
+        delta.m_has_value = lambda I_2, a, n: self.has_delta
+        delta.m_as_bundle = lambda I_2, a, n: EffBundle(self)
+        return None, {"out": out, "delta": delta}
+
+    def global_var(self, I, ref, node):
+        nm = ref.get("name", "")
+        m = {"tsd_delta_modified": "modified", "tsd_delta_removed": "removed", "tsd_delta_removed_strict": "removed_strict"}
+        if nm in m:
+            t = z3.Int(nm)
+            self.field_index[m[nm]] = t
+            return t
+        if nm == "tsd_authored_delta_fields":
+            return self.authored
+        return None
+
+    def f_delta_field_is(self, I, args, n):
+        return z3.BoolVal(True)
+
+    def inv(self, I, ctx):
+        i = self.local(I, "index")
+        yield "index-range", z3.And(i >= 0, i <= self.sizes["removed"])
+        yield "no-removed-key-so-far-is-held-by-the-target", z3.ForAll([qr], z3.Implies(z3.And(qr >= 0, qr < i),
+                                                                                        z3.Not(self.target_has[self.removed_key[qr]])))
+
+    @property
+    def loops(self):
+        return {0: LoopSpec(self.inv, lambda I, ctx: [])}
+
+    def post(self, I, ret):
+        n = self.sizes
+        some_removed_present = z3.Exists([qr], z3.And(qr >= 0, qr < n["removed"], self.target_has[self.removed_key[qr]]))
+        strict = z3.And(self.n_fields == self.authored, n["removed_strict"] != 0)
+        effect = z3.Or(n["modified"] != 0, strict, some_removed_present,
+                       z3.And(n["modified"] == 0, n["removed"] == 0, z3.Not(self.out_valid)))
+        I.ctx.oblige("ensures.no-effect-only-if-applying-changes-nothing[C20 replaying a recorded delta reproduces the tick: a delta with "
+                     "a modified element, a removal of a held key or a validating empty tick is never dropped]",
+                     z3.Implies(self.has_delta, z3.Implies(effect, ret)), kind="post-normal")
+        I.ctx.oblige("ensures.an-absent-delta-has-no-effect;removals-of-absent-keys-alone-do-not-tick", z3.And(
+            z3.Implies(z3.Not(self.has_delta), z3.Not(ret)),
+            z3.Implies(z3.And(self.has_delta, n["modified"] == 0, z3.Not(strict), n["removed"] != 0, z3.Not(some_removed_present)),
+                       z3.Not(ret))), kind="post-normal")
+
+
+# ------------------------------------------------------------------ recorded_seed_resolver (recover: last value at or before start)
+
+RRTU = "src/hgraph/types/record_replay.cpp"
+
+
+class SeedEntries(Obj):
+    cls = "ListView(entries)"
+
+    def __init__(self, k):
+        Obj.__init__(self, name="entries")
+        self.k = k
+
+    def m_size(self, I, a, n):
+        return self.k.n
+
+    def m_at(self, I, a, n):
+        i = I.ctx.rv(a[0])
+        I.ctx.oblige("entry-index-in-range", z3.And(i >= 0, i < self.k.n), kind="bounds")
+        return SeedEntry(self.k, i)
+
+
+class SeedEntry(Obj):
+    cls = "entry"
+
+    def __init__(self, k, i):
+        Obj.__init__(self, name="entry")
+        self.k, self.i = k, i
+
+    def m_as_indexed_view(self, I, a, n):
+        return self
+
+    def m_at(self, I, a, n):
+        j = z3.simplify(I.ctx.rv(a[0]))
+        if z3.is_int_value(j) and j.as_long() == 0:
+            return SeedTime(self.k.tm[self.i])
+        if z3.is_int_value(j) and j.as_long() == 1:
+            return SeedDelta(self.i)
+        raise Gap("entry field %s" % j)
+
+
+class SeedTime(Obj):
+    cls = "ValueView(time)"
+
+    def __init__(self, t):
+        Obj.__init__(self, name="when")
+        self.t = t
+
+    def m_checked_as(self, I, a, n):
+        return self.t
+
+
+class SeedDelta(Obj):
+    cls = "ValueView(delta)"
+
+    def __init__(self, i):
+        Obj.__init__(self, name="delta")
+        self.i = i
+
+
+class RecordedSeedResolver(DeltaKernel):
+    tu = RRTU
+    name = "record_replay.cpp:recorded_seed_resolver"
+    fn_name = "recorded_seed_resolver"
+    filter = "recorded_seed_resolver"
+    title = "recorded_seed_resolver: the recovery seed is the fold of exactly the recorded deltas at or before the start time, in order"
+
+    def setup(self, I):
+        ctx = I.ctx
+        self.n = z3.Int("n_entries")
+        self.tm = z3.Array("entry_time", I_, I_)
+        self.start = z3.Int("start_time")
+        ctx.assume(z3.And(self.n >= 0, self.start >= 0))
+        # the recording is time-sorted with one entry per cycle (record_replay buffers append in evaluation order)
+        ctx.assume(z3.ForAll([qr, qe], z3.Implies(z3.And(qr >= 0, qr < qe, qe < self.n), self.tm[qr] < self.tm[qe])))
+        g = Obj("ghost", "sg")
+        self.g = g
+        ctx.store[(g.oid, "applied")] = z3.IntVal(0)
+        ctx.store[(g.oid, "in_order")] = z3.BoolVal(True)
+        self.buffer_valid = z3.Bool("buffer_valid")
+        self.schema_null = z3.Bool("schema_null")
+        state = Obj("GlobalStateView", "state")
+        buf = Obj("ValueView", "buffer")
+        buf.m_valid = lambda I_2, a, n: self.buffer_valid
+        buf.m_as_list = lambda I_2, a, n: SeedEntries(self)
+        state.m_get = lambda I_2, a, n: buf
+        return None, {"state": state, "fq_key": z3.Int("fq_key"), "schema": Ptr(Obj("schema", "schema"), self.schema_null),
+                      "start_time": self.start}
+
+    def f_config(self, I, args, n):
+        cfg = Obj("RecordReplayConfig", "cfg")
+        I.ctx.store[(cfg.oid, "backend")] = z3.IntVal(self.string_id("MEMORY"))     # domain: the in-memory backend
+        return cfg
+
+    def global_var(self, I, ref, node):
+        if ref.get("name") == "MEMORY":
+            return z3.IntVal(self.string_id("MEMORY"))
+        if ref.get("name") == "TESTING":
+            return z3.IntVal(self.string_id("TESTING"))
+        return None
+
+    def ctor_handler(self, qt, node):
+        if qt.endswith("TSOutput"):
+            def mk(I, args, n):
+                o = Obj("TSOutput", "accumulated")
+                k = self
+
+                def view(I_2, a, n_2):
+                    v = Obj("TSOutputView", "accumulated_view")
+                    v.at = I_2.ctx.rv(a[0])
+                    v.m_valid = lambda I_3, a3, n3: I_3.ctx.fresh("accumulated_valid", "bool")
+                    v.m_value = lambda I_3, a3, n3: Obj("value", "seed_value")
+                    return v
+                o.m_view = view
+                return o
+            return mk
+        if qt.endswith("Value") or "basic_string" in qt or qt.endswith("RecordReplayConfig"):
+            return lambda I, args, n: (I.ctx.rv(args[0]) if args else Obj("Value", "empty_value"))
+        return Kernel.ctor_handler(self, qt, node)
+
+    def op_handler(self, *a):
+        return None
+
+    def f_apply_delta(self, I, args, n):
+        ctx = I.ctx
+        view, d = ctx.rv(args[0]), ctx.rv(args[1])
+        ap = ctx.store[(self.g.oid, "applied")]
+        ok = z3.BoolVal(isinstance(d, SeedDelta))
+        if isinstance(d, SeedDelta):
+            ok = z3.And(d.i == ap, getattr(view, "at", z3.IntVal(-1)) == self.tm[d.i])
+        ctx.write(Loc((self.g.oid, "in_order")), z3.And(ctx.store[(self.g.oid, "in_order")], ok))
+        ctx.write(Loc((self.g.oid, "applied")), ap + 1)
+        return VOID
+
+    def inv(self, I, ctx):
+        i = self.local(I, "i")
+        ap = ctx.store[(self.g.oid, "applied")]
+        yield "every-entry-so-far-applied-in-order-at-its-own-time", z3.And(i >= 0, i <= self.n, ap == i, ctx.store[(self.g.oid, "in_order")],
+                                                                             z3.ForAll([qr], z3.Implies(z3.And(qr >= 0, qr < i), self.tm[qr] <= self.start)))
+
+    def frame(self, I, ctx):
+        return [Loc((self.g.oid, "applied")), Loc((self.g.oid, "in_order"))]
+
+    @property
+    def loops(self):
+        return {0: LoopSpec(self.inv, self.frame)}
+
+    def post(self, I, ret):
+        ctx = I.ctx
+        ap = ctx.store[(self.g.oid, "applied")]
+        usable = z3.And(z3.Not(self.schema_null), self.buffer_valid)
+        ctx.oblige("ensures.seed=fold-of-exactly-the-entries-at-or-before-the-start-time,in-order[C20 recovery resumes from the last "
+                   "recorded value at or before the start time]", z3.Implies(usable, z3.And(
+                       ctx.store[(self.g.oid, "in_order")], ap >= 0, ap <= self.n,
+                       z3.ForAll([qr], z3.Implies(z3.And(qr >= 0, qr < self.n), (qr < ap) == (self.tm[qr] <= self.start))))),
+                   kind="post-normal")
+        ctx.oblige("ensures.nothing-applied-without-a-schema-or-a-recording", z3.Implies(z3.Not(usable), ap == 0), kind="post-normal")
+
+
+KERNELS += [DeltaHasEffectTsd, RecordedSeedResolver]
